@@ -44,4 +44,4 @@ LEVEL_TEXT = ('Bounded symbolic verification: the real residual operators and sm
               'smoothers factorise are exactly the diagonal blocks of A (so they inherit symmetry and definiteness). Shapes are bounded.')
 LEVEL_NOTE = 'exact arithmetic; shapes bounded; strict definiteness only on 12-16 unknowns with numeric coefficients; definiteness for all coefficients/larger grids is not decided'
 TECHNIQUE = 'symbolic execution of LLVM IR (llsym) + SMT (z3 QF_NRA): entry-wise symmetry, block extraction, definiteness of a numeric quadratic form'
-DESIGN_REF = 'DESIGN.md section 6/C05'
+DESIGN_REF = 'DESIGN.md section 0 (status as built: 0.2, 0.5, 0.6) and section 6/C05 (design)'
